@@ -22,4 +22,5 @@ for c in "$@"; do
   echo "   check $c rc=$rc $((e-s))s: $(grep -m1 'violated oracle' $dst/.check_$c.out | cut -c1-300) | $(grep -c VIOLATION $dst/.check_$c.out) VIOLATION lines | $(grep HARNESS $dst/.check_$c.out | cut -c1-200)"
 done
 cd /repo && git checkout -q -- . && git status --short | head -3
+for f in $dst/.check_*.out $dst/.demo_*.out; do if [ -f "$f" ] && [ $(stat -c %s "$f") -gt 20000 ]; then (head -c 6000 "$f"; echo; echo '[... truncated ...]'; tail -c 6000 "$f") > "$f.tmp" && mv "$f.tmp" "$f"; fi; done
 rm -f /verif/replays/*.json
